@@ -22,7 +22,7 @@ PROP = "C01"
 
 
 def build_units(tier):
-    dcfg = os.path.join(vlib.BUILD, "derive-cfg.json")
+    dcfg = os.path.join(vlib.TMP, "derive-cfg.json")
     derivelib.build_config(dcfg)
     progs, st = bindlib.enumerate_programs(tier, derive_cfg=dcfg)
     # TLC's enumeration order is not fixed: name the programs by their content so that the corpus (and its cache) is stable
